@@ -751,3 +751,326 @@ Proof.
     destruct (fpoll fut w) as [[fut' r1] l1] eqn:E1.
     destruct (IH _ _ _ _ HL E1) as (N1 & O1 & P1). inversion H; subst. auto.
 Qed.
+
+Lemma new_evs_newtev_tr : forall t s, flive (tr_fut t s).
+Proof. intros t s. unfold tr_fut. destruct (t_mie t); reflexivity. Qed.
+
+Lemma flive_new : forall f c, flive (new_fut f c).
+Proof.
+  induction f as [id k beh|id beh|a IHa b IHb|sw a IHa|m a IHa|m a IHa|a IHa|s cs|a IHa cs|t a IHa|k a IHa];
+    intros c; cbn [new_fut flive]; auto.
+  - discriminate.
+  - split; [destruct sw; discriminate|apply IHa].
+  - split; [apply IHa|]. split; [discriminate|]. split; [reflexivity|].
+    intros; repeat constructor.
+  - split; [apply IHa|]. split; [apply new_evs_newtev_tr|]. intros; repeat constructor.
+  - destruct k; cbn [flive]; auto.
+Qed.
+
+Lemma fpolls_live : forall n w f, flive f -> Forall fgood_poll (fpolls n w f).
+Proof.
+  induction n as [|n IH]; intros w f HL; cbn [fpolls]; [constructor|].
+  destruct (fpoll f w) as [[f' r] l] eqn:E.
+  destruct (flive_poll _ _ _ _ _ HL E) as (N & O & P).
+  constructor.
+  - cbn. split; [assumption|]. split; [assumption|]. intros Er. now destruct (P Er).
+  - destruct r; try constructor. apply IH. now destruct (P eq_refl).
+Qed.
+
+Lemma fdrive_fpolls : forall n w f,
+  snd (fdrive n w f) = concat (map (fun x : nat * ipres * list event => snd x) (fpolls n w f)).
+Proof.
+  induction n as [|n IH]; intros w f; cbn [fdrive fpolls]; [reflexivity|].
+  destruct (fpoll f w) as [[f' r] l] eqn:E.
+  destruct r; cbn; try (now rewrite app_nil_r).
+  specialize (IH (S w) f'). destruct (fdrive n (S w) f') as [[r2 c] l2]. cbn in *. now rewrite IH.
+Qed.
+
+(* ---- value: f, polled with wakers w, w+1, ..., answers Pending k times and then Ready r ---- *)
+Inductive FRun : ffut -> nat -> nat -> ires -> Prop :=
+| FRunDone f w f' r l : fpoll f w = (f', IReady r, l) -> FRun f w 0 r
+| FRunStep f w f' l k r : fpoll f w = (f', IPending, l) -> FRun f' (S w) k r -> FRun f w (S k) r.
+
+Lemma fdrive_of_FRun : forall f w k r, FRun f w k r ->
+  forall n, k < n -> fst (fdrive n w f) = (IReady r, S k).
+Proof.
+  induction 1 as [f w f' r l H|f w f' l k r H HR IH]; intros n Hn;
+    (destruct n as [|n]; [lia|]); cbn [fdrive]; rewrite H.
+  - reflexivity.
+  - specialize (IH n ltac:(lia)). destruct (fdrive n (S w) f') as [[r2 c] l2]. cbn in *.
+    now inversion IH.
+Qed.
+
+Lemma FRun_leaf : forall k id out w, FRun (FFLeaf id k out false) w k out.
+Proof.
+  induction k as [|k IH]; intros id out w.
+  - eapply FRunDone. reflexivity.
+  - eapply FRunStep; [reflexivity|apply IH].
+Qed.
+
+Lemma FRun_mapsvc : forall sw st f w k r, st <> OptNone -> FRun f w k r ->
+  FRun (FFMapSvc sw st f) w k (imap (sw_app sw) r).
+Proof.
+  intros sw st f w k r Hs H. induction H as [f w f' r l H|f w f' l k r H HR IH].
+  - destruct r as [s|e]; destruct st; try contradiction;
+      eapply FRunDone; cbn [fpoll]; rewrite H; reflexivity.
+  - eapply FRunStep; [|exact IH]. cbn [fpoll]. now rewrite H.
+Qed.
+
+Lemma FRun_mie : forall kd m f w k r, FRun f w k r -> FRun (FFMapInitErr kd m f) w k (imap_err m r).
+Proof.
+  intros kd m f w k r H. induction H as [f w f' r l H|f w f' l k r H HR IH].
+  - destruct r as [s|e]; eapply FRunDone; cbn [fpoll]; rewrite H; reflexivity.
+  - eapply FRunStep; [|exact IH]. cbn [fpoll]. now rewrite H.
+Qed.
+
+Lemma FRun_box : forall f w k r, FRun f w k r -> FRun (FFBox f false) w k (imap (Wrap WBoxed) r).
+Proof.
+  intros f w k r H. induction H as [f w f' r l H|f w f' l k r H HR IH].
+  - destruct r as [s|e]; eapply FRunDone; cbn [fpoll]; rewrite H; reflexivity.
+  - eapply FRunStep; [|exact IH]. cbn [fpoll]. now rewrite H.
+Qed.
+
+Lemma FRun_trB : forall f w k r, FRun f w k r -> FRun (FFTrB f) w k r.
+Proof.
+  intros f w k r H. induction H as [f w f' r l H|f w f' l k r H HR IH].
+  - eapply FRunDone. cbn [fpoll]. now rewrite H.
+  - eapply FRunStep; [|exact IH]. cbn [fpoll]. now rewrite H.
+Qed.
+
+Lemma FRun_trA_err : forall kt kev f w k e, FRun f w k (IErr e) -> FRun (FFTrA f kt kev) w k (IErr e).
+Proof.
+  intros kt kev f w k e H. remember (IErr e) as r eqn:Er.
+  induction H as [f w f' r l H|f w f' l k r H HR IH]; subst.
+  - eapply FRunDone. cbn [fpoll]. now rewrite H.
+  - eapply FRunStep; [|now apply IH]. cbn [fpoll]. now rewrite H.
+Qed.
+
+Lemma FRun_trA_ok : forall kt kev f w ka s, FRun f w ka (IOk s) ->
+  forall k2 r, FRun (kt s) (w + ka) k2 r -> FRun (FFTrA f kt kev) w (ka + k2) r.
+Proof.
+  intros kt kev f w ka s H. remember (IOk s) as r0 eqn:Er.
+  induction H as [f w f' r1 l H|f w f' l k r1 H HR IH]; subst; intros k2 r HB.
+  - rewrite Nat.add_0_r in HB. cbn [Nat.add].
+    inversion HB as [g w0 g' r2 l2 HP|g w0 g' l2 k3 r2 HP HR2]; subst.
+    + eapply FRunDone. cbn [fpoll]. rewrite H, HP. reflexivity.
+    + eapply FRunStep; [|apply FRun_trB; exact HR2]. cbn [fpoll]. rewrite H, HP. reflexivity.
+  - cbn [Nat.add]. eapply FRunStep; [cbn [fpoll]; now rewrite H|].
+    apply IH; [reflexivity|]. now rewrite <- Nat.add_succ_comm in HB.
+Qed.
+
+Lemma FRun_cfgC : forall f w k r, FRun f w k r -> FRun (FFCfgC f) w k r.
+Proof.
+  intros f w k r H. induction H as [f w f' r l H|f w f' l k r H HR IH].
+  - eapply FRunDone. cbn [fpoll]. now rewrite H.
+  - eapply FRunStep; [|exact IH]. cbn [fpoll]. now rewrite H.
+Qed.
+
+Lemma poll_ready_at : forall e w,
+  exists l, poll_ready e w = (fst (fst (poll_ready e 0)), snd (fst (poll_ready e 0)), l).
+Proof.
+  intros e w. pose proof (poll_ready_indep e w) as H.
+  destruct (poll_ready e w) as [[e1 r1] l1]. exists l1. cbn in H. rewrite <- H. reflexivity.
+Qed.
+
+(* the readiness wait of state B followed by the configure future *)
+Lemma FRun_cfgB : forall kc kev c n s w kr rr s',
+  wait_ready n s = (kr, rr, s') -> rr <> RPending ->
+  match rr with
+  | RErr e => FRun (FFCfgB s (Some c) kc kev) w kr (IErr e)
+  | _ => forall k2 r, FRun (kc c s') (w + kr) k2 r -> FRun (FFCfgB s (Some c) kc kev) w (kr + k2) r
+  end.
+Proof.
+  intros kc kev c. induction n as [|n IH]; intros s w kr rr s' HW HN; cbn [wait_ready] in HW.
+  - inversion HW; subst. contradiction.
+  - destruct (poll_ready_at s w) as (lw & Ew).
+    destruct (poll_ready s 0) as [[e0 r0] l0] eqn:E0. cbn [fst snd] in Ew.
+    destruct r0 as [| |x].
+    + destruct (wait_ready n e0) as [[k r2] e2] eqn:EW. inversion HW; subst.
+      specialize (IH e0 (S w) k rr s' EW HN).
+      destruct rr as [| |x]; [contradiction| |].
+      * intros k2 r HR. cbn [Nat.add]. eapply FRunStep; [cbn [fpoll]; rewrite Ew; reflexivity|].
+        apply IH. now rewrite <- Nat.add_succ_comm in HR.
+      * eapply FRunStep; [cbn [fpoll]; rewrite Ew; reflexivity|exact IH].
+    + inversion HW; subst. intros k2 r HR. rewrite Nat.add_0_r in HR. cbn [Nat.add].
+      inversion HR as [g w0 g' r2 l2 HP|g w0 g' l2 k3 r2 HP HR2]; subst.
+      * eapply FRunDone. cbn [fpoll]. rewrite Ew, HP. reflexivity.
+      * eapply FRunStep; [|apply FRun_cfgC; exact HR2]. cbn [fpoll]. rewrite Ew, HP. reflexivity.
+    + inversion HW; subst. eapply FRunDone. cbn [fpoll]. rewrite Ew. reflexivity.
+Qed.
+
+(* a poll of state A whose inner future is ready = that event prefix + a poll of state B *)
+Lemma fpoll_cfgA_ready : forall fut cfg kc kev w fut' s l,
+  fpoll fut w = (fut', IReady (IOk s), l) ->
+  fpoll (FFCfgA fut cfg kc kev) w
+  = let '(f', r, l2) := fpoll (FFCfgB s cfg kc kev) w in (f', r, l ++ l2).
+Proof.
+  intros fut cfg kc kev w fut' s l H. cbn [fpoll]. rewrite H.
+  destruct (poll_ready s w) as [[s' rr] lr].
+  destruct rr; try reflexivity. destruct cfg as [c|]; [|reflexivity].
+  destruct (fpoll (kc c s') w) as [[fc' r3] l3]. reflexivity.
+Qed.
+
+Lemma FRun_cfgA_err : forall cfg kc kev f w k e, FRun f w k (IErr e) -> FRun (FFCfgA f cfg kc kev) w k (IErr e).
+Proof.
+  intros cfg kc kev f w k e H. remember (IErr e) as r eqn:Er.
+  induction H as [f w f' r l H|f w f' l k r H HR IH]; subst.
+  - eapply FRunDone. cbn [fpoll]. now rewrite H.
+  - eapply FRunStep; [|now apply IH]. cbn [fpoll]. now rewrite H.
+Qed.
+
+Lemma FRun_cfgA_ok : forall cfg kc kev f w ka s, FRun f w ka (IOk s) ->
+  forall k2 r, FRun (FFCfgB s cfg kc kev) (w + ka) k2 r -> FRun (FFCfgA f cfg kc kev) w (ka + k2) r.
+Proof.
+  intros cfg kc kev f w ka s H. remember (IOk s) as r0 eqn:Er.
+  induction H as [f w f' r1 l H|f w f' l k r1 H HR IH]; subst; intros k2 r HB.
+  - rewrite Nat.add_0_r in HB. cbn [Nat.add].
+    pose proof (fpoll_cfgA_ready _ cfg kc kev _ _ _ _ H) as EA.
+    inversion HB as [g w0 g' r2 l2 HP|g w0 g' l2 k3 r2 HP HR2]; subst; rewrite HP in EA.
+    + eapply FRunDone. exact EA.
+    + eapply FRunStep; [exact EA|exact HR2].
+  - cbn [Nat.add]. eapply FRunStep; [cbn [fpoll]; now rewrite H|].
+    apply IH; [reflexivity|]. now rewrite <- Nat.add_succ_comm in HB.
+Qed.
+
+(* ---- and_then factory: both futures are polled every round until each has produced ---- *)
+Definition and_out_l (sb : sexpr) (ra : ires) : ires := match ra with IOk sa => IOk (AndThen sa sb) | IErr e => IErr e end.
+Definition and_out_r (sa : sexpr) (rb : ires) : ires := match rb with IOk sb => IOk (AndThen sa sb) | IErr e => IErr e end.
+
+Lemma FRun_and_right : forall fa sa fb w k rb, FRun fb w k rb ->
+  FRun (FFAnd fa fb (Some sa) None) w k (and_out_r sa rb).
+Proof.
+  intros fa sa fb w k rb H. induction H as [f w f' r l H|f w f' l k r H HR IH].
+  - destruct r as [sb|e]; eapply FRunDone; cbn [fpoll]; rewrite H; reflexivity.
+  - eapply FRunStep; [|exact IH]. cbn [fpoll]. rewrite H. reflexivity.
+Qed.
+
+Lemma FRun_and_left : forall fb sb fa w k ra, FRun fa w k ra ->
+  FRun (FFAnd fa fb None (Some sb)) w k (and_out_l sb ra).
+Proof.
+  intros fb sb fa w k ra H. induction H as [f w f' r l H|f w f' l k r H HR IH].
+  - destruct r as [sa|e]; eapply FRunDone; cbn [fpoll]; rewrite H; reflexivity.
+  - eapply FRunStep; [|exact IH]. cbn [fpoll]. rewrite H. reflexivity.
+Qed.
+
+Lemma fjoin_S : forall ka ra kb rb,
+  fjoin (S ka, ra) (S kb, rb) = (S (fst (fjoin (ka, ra) (kb, rb))), snd (fjoin (ka, ra) (kb, rb))).
+Proof.
+  intros ka ra kb rb. unfold fjoin. destruct ra, rb; cbn [fst snd]; try reflexivity.
+  change (S ka <=? S kb) with (ka <=? kb). destruct (ka <=? kb); reflexivity.
+Qed.
+
+Lemma FRun_and : forall fa w ka ra, FRun fa w ka ra ->
+  forall fb kb rb, FRun fb w kb rb ->
+  FRun (FFAnd fa fb None None) w (fst (fjoin (ka, ra) (kb, rb))) (snd (fjoin (ka, ra) (kb, rb))).
+Proof.
+  intros fa w ka ra H.
+  induction H as [fa w fa' ra la H|fa w fa' la ka ra H HR IH]; intros fb kb rb HB.
+  - destruct ra as [sa|ea].
+    + inversion HB as [g w0 g' r2 l2 HP|g w0 g' l2 k3 r2 HP HR2]; subst.
+      * destruct rb as [sb|eb]; cbn [fjoin fst snd Nat.max]; eapply FRunDone; cbn [fpoll];
+          rewrite H, HP; reflexivity.
+      * assert (E : fjoin (0, IOk sa) (S k3, rb) = (S k3, and_out_r sa rb))
+          by (destruct rb; reflexivity).
+        rewrite E. cbn [fst snd]. eapply FRunStep; [|apply FRun_and_right; exact HR2].
+        cbn [fpoll]. rewrite H, HP. reflexivity.
+    + assert (E : fjoin (0, IErr ea) (kb, rb) = (0, IErr ea)) by (destruct rb; reflexivity).
+      rewrite E. cbn [fst snd]. eapply FRunDone. cbn [fpoll]. rewrite H. reflexivity.
+  - inversion HB as [g w0 g' r2 l2 HP|g w0 g' l2 k3 r2 HP HR2]; subst.
+    + destruct rb as [sb|eb].
+      * assert (E : fjoin (S ka, ra) (0, IOk sb) = (S ka, and_out_l sb ra))
+          by (destruct ra; reflexivity).
+        rewrite E. cbn [fst snd]. eapply FRunStep; [|apply FRun_and_left; exact HR].
+        cbn [fpoll]. rewrite H, HP. reflexivity.
+      * assert (E : fjoin (S ka, ra) (0, IErr eb) = (0, IErr eb)) by (destruct ra; reflexivity).
+        rewrite E. cbn [fst snd]. eapply FRunDone. cbn [fpoll]. rewrite H, HP. reflexivity.
+    + rewrite fjoin_S. cbn [fst snd]. eapply FRunStep; [|apply IH; exact HR2].
+      cbn [fpoll]. rewrite H, HP. reflexivity.
+Qed.
+
+(* main refinement lemma at factory level *)
+Lemma new_FRun : forall f c w, FRun (new_fut f c) w (fst (fsem f c)) (snd (fsem f c)).
+Proof.
+  induction f as [id k beh|id beh|a IHa b IHb|sw a IHa|m a IHa|m a IHa|a IHa|s cs|a IHa cs|t a IHa|k a IHa];
+    intros c w; cbn [new_fut fsem].
+  - apply FRun_leaf.
+  - eapply FRunDone. reflexivity.
+  - specialize (IHa c w). specialize (IHb c w).
+    destruct (fsem a c) as [ka ra], (fsem b c) as [kb rb]. now apply FRun_and.
+  - specialize (IHa c w). destruct (fsem a c) as [ka ra]. cbn [fst snd] in *.
+    apply FRun_mapsvc; [destruct sw; discriminate|assumption].
+  - specialize (IHa c w). destruct (fsem a c) as [ka ra]. cbn [fst snd] in *. now apply FRun_mie.
+  - apply IHa.
+  - apply IHa.
+  - cbn [fst snd]. apply FRun_leaf.
+  - specialize (IHa None w). destruct (fsem a None) as [ka ra]. cbn [fst snd] in IHa.
+    destruct ra as [s|e]; [|cbn [fst snd]; now apply FRun_cfgA_err].
+    destruct (wait_ready (S (script_len s)) s) as [[kr rr] s'] eqn:EW.
+    pose proof (wait_ready_enough (S (script_len s)) s ltac:(lia)) as HN. rewrite EW in HN. cbn in HN.
+    pose proof (FRun_cfgB (fun c' s0 => FFLeaf (c_id cs) (c_k cs) (cfg_out cs c' s0) false)
+                          (fun c' _ => [EvCfgFn (c_id cs) c']) c _ _ (w + ka) _ _ _ EW HN) as HB.
+    destruct rr as [| |x]; [contradiction| |]; cbn [fst snd].
+    + rewrite <- Nat.add_assoc. eapply FRun_cfgA_ok; [exact IHa|]. apply HB. apply FRun_leaf.
+    + eapply FRun_cfgA_ok; [exact IHa|exact HB].
+  - specialize (IHa c w). destruct (fsem a c) as [ka ra]. cbn [fst snd] in IHa.
+    destruct ra as [s|e]; cbn [fst snd]; [|now apply FRun_trA_err].
+    eapply FRun_trA_ok; [exact IHa|]. unfold tr_fut.
+    destruct (t_mie t) as [m|]; [apply FRun_mie|]; apply FRun_leaf.
+  - destruct k; [|apply IHa|apply IHa].
+    specialize (IHa c w). destruct (fsem a c) as [ka ra]. cbn [fst snd] in *. now apply FRun_box.
+Qed.
+
+Lemma fokev_no_new : forall w l, Forall (fokev w) l -> new_events l = [].
+Proof.
+  induction 1 as [|ev l H HF IH]; [reflexivity|]. unfold new_events in *. cbn [flat_map].
+  rewrite IH. destruct ev; cbn in H; try contradiction; reflexivity.
+Qed.
+
+Lemma new_events_app : forall a b, new_events (a ++ b) = new_events a ++ new_events b.
+Proof. intros. unfold new_events. apply flat_map_app. Qed.
+
+Lemma new_evs_leaves : forall f c, new_events (new_evs f c) = fleaves f c.
+Proof.
+  induction f as [id k beh|id beh|a IHa b IHb|sw a IHa|m a IHa|m a IHa|a IHa|s cs|a IHa cs|t a IHa|k a IHa];
+    intros c; cbn [new_evs fleaves]; auto.
+  - now rewrite new_events_app, IHa, IHb.
+  - rewrite new_events_app, IHa. destruct c; reflexivity.
+Qed.
+
+Lemma fpolls_no_new : forall n w f, flive f ->
+  new_events (concat (map (fun x : nat * ipres * list event => snd x) (fpolls n w f))) = [].
+Proof.
+  intros n w f HL. pose proof (fpolls_live n w f HL) as H.
+  induction H as [|[[wi r] l] t Hg HF IH]; [reflexivity|].
+  cbn [map concat snd]. rewrite new_events_app, IH, app_nil_r.
+  destruct Hg as (_ & O & _). eapply fokev_no_new; eauto.
+Qed.
+
+(* ---- statements used by Props ---- *)
+Lemma run_new_value : forall f c w n, fst (fsem f c) < n ->
+  fst (run_new n w f c) = (IReady (snd (fsem f c)), S (fst (fsem f c))).
+Proof.
+  intros f c w n Hn. unfold run_new.
+  pose proof (fdrive_of_FRun _ _ _ _ (new_FRun f c w) n Hn) as H.
+  destruct (fdrive n w (new_fut f c)) as [[r k] l]. cbn in *. exact H.
+Qed.
+
+Lemma run_new_once : forall f c w n, new_events (snd (run_new n w f c)) = fleaves f c.
+Proof.
+  intros f c w n. unfold run_new.
+  pose proof (fdrive_fpolls n w (new_fut f c)) as H.
+  destruct (fdrive n w (new_fut f c)) as [[r k] l]. cbn [snd] in *.
+  rewrite new_events_app, new_evs_leaves, H, fpolls_no_new by apply flive_new.
+  apply app_nil_r.
+Qed.
+
+Lemma new_polls_good : forall f c n w, Forall fgood_poll (fpolls n w (new_fut f c)).
+Proof. intros. apply fpolls_live, flive_new. Qed.
+
+Lemma run_new_log : forall n w f c,
+  snd (run_new n w f c)
+  = new_evs f c ++ concat (map (fun x : nat * ipres * list event => snd x) (fpolls n w (new_fut f c))).
+Proof.
+  intros. unfold run_new. rewrite <- fdrive_fpolls.
+  destruct (fdrive n w (new_fut f c)) as [[r k] l]. reflexivity.
+Qed.
